@@ -88,14 +88,21 @@ impl CredentialStore for MemoryStore {
     async fn find_credentials(
         &self,
         allow_credentials: Option<&[PublicKeyCredentialDescriptor]>,
-        _rp_id: &str,
+        rp_id: &str,
     ) -> Result<Vec<Self::PasskeyItem>, StatusCode> {
-        let creds: Vec<Passkey> = allow_credentials
-            .into_iter()
-            .flatten()
-            .filter_map(|id| self.get(&*id.id))
-            .cloned()
-            .collect();
+        let creds: Vec<Passkey> = match allow_credentials {
+            Some(ids) => ids
+                .iter()
+                .filter_map(|id| self.get(&*id.id))
+                .cloned()
+                .collect(),
+            // Without a list of ids, all the credentials of the relying party match.
+            None => self
+                .values()
+                .filter(|pk| pk.rp_id == rp_id)
+                .cloned()
+                .collect(),
+        };
         if creds.is_empty() {
             Err(Ctap2Error::NoCredentials.into())
         } else {
